@@ -381,8 +381,11 @@ def _leaves(o, acc):
         for x in o:
             _leaves(x, acc)
     elif hasattr(o, "dtype") and hasattr(o, "tolist"):
-        for x in o.tolist() if o.dtype != object else list(o):
-            _leaves(x, acc)
+        if getattr(o, "ndim", 0) == 0:
+            _leaves(o.tolist() if o.dtype != object else o.item(), acc)
+        else:
+            for x in o.tolist() if o.dtype != object else list(o):
+                _leaves(x, acc)
     return acc
 
 
